@@ -203,6 +203,9 @@ def finish(prop, mod, tier, seed, specs, results, wall):
     extra = mod.finalize(merged, tier) if hasattr(mod, "finalize") else {}
     extra = extra or {}
     merged["inconclusive"].extend(extra.get("inconclusive", []))
+    merged["violations"].extend(extra.get("violations", []))
+    for key in extra.get("nontrivial", []):
+        merged["nontrivial"].add(str(key))
 
     # classify known findings: listed -> KNOWN-FINDING line; not listed -> violation
     known_lines = {}
@@ -240,7 +243,7 @@ def finish(prop, mod, tier, seed, specs, results, wall):
         "inconclusive_reasons": merged["inconclusive"][:10],
     }
     for k, v in extra.items():
-        if k not in ("inconclusive",):
+        if k not in ("inconclusive", "violations", "nontrivial"):
             coverage[k] = ser.plain(v)
     if merged["evaluations"] < 1:
         merged["inconclusive"].append("no evaluations")
